@@ -90,10 +90,24 @@ def running_state(H, solver, size=4):
         names["theta"] = len(solver.probe_points)
     if solver.options.include_screening:
         names["screening_iterations"] = 1
-    return RunningState(names, size)
+    import tdgl.solver.runner as R
+
+    # (the default array_module is bound at definition time; pass the module's current `np`)
+    return RunningState(names, size, array_module=R.np)
 
 
 def zeros2(H, n, m):
     if H.mode == "sym":
         return H.array2([[0.0] * m for _ in range(n)])
     return np.zeros((n, m))
+
+
+def site_function(dev, values):
+    """A user-style callable r -> value(r) defined on the mesh sites (non-vectorised epsilon)."""
+    xi = dev.coherence_length.magnitude
+    index = {(float(x), float(y)): i for i, (x, y) in enumerate(xi * dev.mesh.sites)}
+
+    def f(r):
+        return K.at(values, index[(float(r[0]), float(r[1]))])
+
+    return f
